@@ -6,11 +6,17 @@ without `;`, comment kinds, blank lines, an import that already names another cl
 and prints every case with its concrete text; (2) every case is given to the real language server
 (`rewrite::code_actions` at the unresolved-class error, `completion::auto_complete` at the end of the class
 name) by `vh edits-run`, which records the proposed edits and what the real parser/checker say before and
-after applying them; (3) the same after seeded random edit histories (`ServerState::update`) that end in a
-document of the space; (4) spec/EditsTrace.tla judges every record: the verdict conditions are the clauses of
+after applying them; (3) the same after edit histories: spec/EditsHist.tla models the workspace side (the modules that
+may export the class are updated -- created, edited so that they stop / start exporting it, broken --, REMOVED and
+RENAMED) and says what the live workspace and the live exporters are afterwards; spec/EditsHistGen.tla enumerates
+every history of up to N operations from every initial workspace, the driver replays each on the real server
+(`ServerState::update / remove / rename_module`) under a document of the space, plus seeded random longer histories
+that also edit the document and the other modules; (4) spec/EditsTrace.tla judges every record -- a proposal is
+always judged on a FRESH server started from the live workspace (as EditsHist.tla computes it, text for text) with
+the edited document, never on the running server's own diagnostics: the verdict conditions are the clauses of
 the property evaluated by TLC on the logged observations; disagreement between Edits.tla's ApplyEdits /
 transcribed fix shapes / import-section reader and the harness / implementation is MODEL-DRIFT only."""
-import json, os, random, time, threading
+import json, os, random, re, time, threading
 from vlib import *
 
 PID = "C16"
@@ -43,22 +49,92 @@ def case_id(c):
 # ---------------------------------------------------------------------------------------------------
 # random edit histories that end in a document of the enumerated space
 
-A_NOFOO = "class Other {\n  function baz(): int = 3\n}\n"
-E_NOFOO = "class Unrelated {\n  function bar(): int = 5\n}\n"
+# the candidate exporters of spec/EditsHist.tla and the texts of HistText (EditsTrace.tla compares them text for text)
+CANDS = ("A", "E", "Z")
+DIGIT = {"A": "2", "E": "5", "Lib.Exp": "7"}
+A_OTHER = "class Other {\n  function baz(): int = 3\n}\n"
+UNRELATED = "class Unrelated {\n  function bar(): int = 5\n}\n"
 BROKEN = ["class {\n", "import { Foo from A\nclass Main {}\n", "", "class Main {\n  function main(): int = (\n}\n"]
 
 
+def hist_text(m, kind):
+    foo = "class Foo {\n  function bar(): int = " + DIGIT.get(m, "9") + "\n}\n"
+    return {"foo": (foo + A_OTHER) if m == "A" else foo, "nofoo": A_OTHER if m == "A" else UNRELATED, "broken": BROKEN[0]}[kind]
+
+
+def apply_hop(ws, o):
+    """EditsHist!ApplyOp on {module: (kind, text)} (absent modules are not in the dict)"""
+    ws = dict(ws)
+    if o["op"] == "update":
+        ws[o["m"]] = (o["kind"], hist_text(o["m"], o["kind"]))
+    elif o["op"] == "remove":
+        ws.pop(o["m"], None)
+    elif o["op"] == "rename" and o["m"] in ws and o["m"] != o["to"]:
+        ws[o["to"]] = ws.pop(o["m"])
+    return ws
+
+
+def static_mods(target):
+    """the modules of a document's workspace that no history touches: everything but the candidate exporters of
+    EditsHist.tla and the document's own exporters (in a history the class is exported by the live candidates only)"""
+    return {m: t for m, t in target["mods"].items() if m not in CANDS and m not in target["exporters"]}
+
+
+def hist_case(hid, target, hinit, hops, init_extra, hist, ws0, ws):
+    """a case of `vh edits-run`: document `target` of the space under the live workspace `ws` the history ends in"""
+    static = static_mods(target)
+    live = {m: kt[1] for m, kt in ws.items()}
+    init = dict(static)
+    init.update({m: kt[1] for m, kt in ws0.items()})
+    init["Doc"] = target["text"]
+    init.update(init_extra)
+    return {"id": f"{hid}:{case_id(target)}", "src": "history", "text": target["text"], "mods": dict(static, **live),
+            "cls": target["cls"], "exporters": sorted(m for m, kt in ws.items() if kt[0] == "foo"),
+            "last_semi": target["last_semi"], "already_named": target.get("already_named", False),
+            "layout": target["doc"]["layout"], "init": init, "hist": hist,
+            "hinit": hinit, "hops": hops, "cand_mods": live}
+
+
+def op_call(o):
+    """one call of the server's workspace interface for an operation of EditsHist.tla"""
+    if o["op"] == "update":
+        return {"op": "update", "files": {o["m"]: hist_text(o["m"], o["kind"])}}
+    if o["op"] == "remove":
+        return {"op": "remove", "mods": [o["m"]]}
+    return {"op": "rename", "pairs": [[o["m"], o["to"]]]}
+
+
+def op_tag(o):
+    return {"update": f"u{o['m']}={o['kind']}", "remove": f"rm{o['m']}", "rename": f"mv{o['m']}>{o['to']}"}[o["op"]]
+
+
+def enumerated_histories(pool, hists, rng):
+    """the histories spec/EditsHistGen.tla printed, each under a document of the space (seeded choice)"""
+    out = []
+    for i, h in enumerate(hists):
+        target = rng.choice(pool)
+        ws0 = {m: (k, hist_text(m, k)) for m, k in h["hinit"].items() if k != "absent"}
+        ws = ws0
+        for o in h["hops"]:
+            ws = apply_hop(ws, o)
+        # the driver's replay must be the specification's (TLC printed the live files)
+        if {x["m"]: x["t"] for x in h["live"]} != {m: kt[1] for m, kt in ws.items()} or \
+           {x["m"]: x["t"] for x in h["init"]} != {m: kt[1] for m, kt in ws0.items()} or \
+           [x["text"] for x in h["ops"]] != [hist_text(o["m"], o["kind"]) if o["op"] == "update" else "" for o in h["hops"]]:
+            tool_failure(f"c16.py replays history {h['hops']} from {h['hinit']} differently from EditsHist.tla")
+        tag = "+".join(op_tag(o) for o in h["hops"]) or "fresh"
+        init_tag = "".join(f"{m}{k[0]}" for m, k in sorted(h["hinit"].items()))
+        out.append(hist_case(f"ws{i}:{init_tag}:{tag}", target, h["hinit"], h["hops"], {}, [op_call(o) for o in h["hops"]], ws0, ws))
+    return out
+
+
 def histories(pool, n, rng):
+    """seeded random longer histories: workspace operations on the candidate exporters (single and batched), edits of
+    the document and of the other modules in between"""
     out = []
     for h in range(n):
         target = rng.choice(pool)
-        mods = dict(target["mods"])
-        names = sorted(mods)
-        variants = {m: [mods[m]] + rng.sample(BROKEN, 1) for m in names}
-        variants["A"].append(A_NOFOO)
-        variants["A"].append(mods["A"].replace("= 2", "= 22"))
-        variants.setdefault("E", [E_NOFOO]).append(E_NOFOO)
-        variants["E"].append("class Foo {\n  function bar(): int = 5\n}\n")
+        static = static_mods(target)
 
         def doc_variant():
             k = rng.randrange(6)
@@ -75,25 +151,39 @@ def histories(pool, n, rng):
                 return target["text"]
             return "import { Foo } from E\n" + other
 
-        init = {"Doc": doc_variant()}
-        for m in names:
-            if rng.random() < 0.8:
-                init[m] = rng.choice(variants[m])
-        if "E" not in init and rng.random() < 0.4:
-            init["E"] = rng.choice(variants["E"])
-        hist = []
-        for _ in range(rng.randrange(1, 5)):
-            batch = {}
-            for m in rng.sample(["Doc", "Doc", "A", "A", "B", "C", "E"], rng.randrange(1, 3)):
-                batch[m] = doc_variant() if m == "Doc" else rng.choice(variants[m])
-            hist.append(batch)
-        seen = set(init) | {m for b in hist for m in b}
-        if "E" in seen and "E" not in mods:
-            mods["E"] = E_NOFOO          # E exists at the end but does not export the class
-        out.append({"id": f"hist{h}:{case_id(target)}", "src": "history", "text": target["text"], "mods": mods,
-                    "cls": target["cls"], "exporters": target["exporters"], "last_semi": target["last_semi"],
-                    "already_named": target.get("already_named", False),
-                    "layout": target["doc"]["layout"], "init": init, "hist": hist})
+        hinit = {"A": rng.choice(["foo", "foo", "nofoo", "absent"]), "E": rng.choice(["foo", "nofoo", "absent"]),
+                 "Z": rng.choice(["absent", "absent", "foo", "nofoo"])}
+        ws0 = {m: (k, hist_text(m, k)) for m, k in hinit.items() if k != "absent"}
+        ws, hops, hist = ws0, [], []
+        init_extra = {"Doc": doc_variant()}
+        for m in sorted(static):
+            r = rng.random()
+            if r < 0.15:
+                init_extra[m] = rng.choice(BROKEN)
+        for _ in range(rng.randrange(1, 6)):
+            r = rng.random()
+            if r < 0.25:
+                hist.append({"op": "update", "files": {"Doc": doc_variant()}})
+            elif r < 0.35 and static:
+                m = rng.choice(sorted(static))
+                hist.append({"op": "update", "files": {m: rng.choice([static[m]] + BROKEN)}})
+            else:
+                kind = rng.choice(["update", "update", "remove", "remove", "rename", "rename"])
+                ms = rng.sample(CANDS, rng.choice([1, 1, 2]))
+                if kind == "update":
+                    ops = [{"op": "update", "m": m, "kind": rng.choice(["foo", "nofoo", "nofoo", "broken"]), "to": ""} for m in ms]
+                    call = {"op": "update", "files": {o["m"]: hist_text(o["m"], o["kind"]) for o in ops}}
+                elif kind == "remove":
+                    ops = [{"op": "remove", "m": m, "kind": "", "to": ""} for m in ms]
+                    call = {"op": "remove", "mods": ms}
+                else:
+                    ops = [{"op": "rename", "m": m, "kind": "", "to": rng.choice([x for x in CANDS if x != m])} for m in ms]
+                    call = {"op": "rename", "pairs": [[o["m"], o["to"]] for o in ops]}
+                for o in ops:
+                    ws = apply_hop(ws, o)
+                hops += ops
+                hist.append(call)
+        out.append(hist_case(f"hist{h}", target, hinit, hops, init_extra, hist, ws0, ws))
     return out
 
 
@@ -125,6 +215,11 @@ def judge_records(records, tag):
         vs = {v["r"]: v for v in behaviours_from(r, "VERDICT")}
         if sorted(vs) != list(range(1, len(chunks[k]) + 1)):
             tool_failure(f"EditsTrace judged {len(vs)} of {len(chunks[k])} records in chunk {k} of {tag}")
+        off = [i for i, v in vs.items() if not v.get("modelOk", True)]
+        if off:
+            rec = chunks[k][off[0] - 1]
+            log(json.dumps({x: rec.get(x) for x in ("id", "hinit", "hops", "exporters", "cand_mods")})[:3000])
+            tool_failure(f"{len(off)} record(s) of {tag}: the live workspace the driver used is not Replay(hinit, hops) of EditsHist.tla")
         verdicts += [vs[i] for i in range(1, len(chunks[k]) + 1)]
         gen += r.generated
         dist += r.distinct
@@ -143,7 +238,8 @@ def run_cases(cases, tag):
 
 
 def replay_case_of(case):
-    return {k: case[k] for k in ("id", "text", "mods", "cls", "exporters", "init", "hist", "layout", "src", "last_semi") if k in case}
+    return {k: case[k] for k in ("id", "text", "mods", "cls", "exporters", "init", "hist", "layout", "src", "last_semi",
+                                 "hinit", "hops", "cand_mods") if k in case}
 
 
 def assess(cases, tag, stats):
@@ -178,7 +274,10 @@ def assess(cases, tag, stats):
         if v["failed"]:
             failed.append((by_id[r["id"]], r, v))
     # every case must have produced at least one proposal of each kind, else the check would be vacuous there
-    silent = [c["id"] for c in cases if proposals_per_case.get(c["id"], 0) < 2 and not c.get("already_named")]
+    # (a workspace in which no live module exports the class has nothing to propose)
+    silent = [c["id"] for c in cases if proposals_per_case.get(c["id"], 0) < 2 and not c.get("already_named") and c["exporters"]]
+    unasked = [c["id"] for c in cases if proposals_per_case.get(c["id"], 0) > 0 and not c["exporters"]]
+    stats["cases_with_proposals_but_no_live_exporter"] = stats.get("cases_with_proposals_but_no_live_exporter", 0) + len(unasked)
     stats["cases_without_both_proposals"] = stats.get("cases_without_both_proposals", 0) + len(silent)
     if silent:
         log(f"NOTE: {len(silent)} case(s) in '{tag}' did not get both a quick fix and a completion edit, e.g. {silent[:3]}")
@@ -234,7 +333,6 @@ def run(tier):
     # application; the coverage run therefore carries the ReadsBack theorem only)
     cov = tlc("EditsGen", "EditsGenCov.cfg", workers=4, timeout=600, coverage=True, tag="c16cov")
     tlc_must_pass(cov, "EditsGen (coverage run)")
-    import re
     taken = [int(m.group(1)) for m in re.finditer(r"^<Next line .*?>: (\d+):\d+", cov.out, re.M)]
     if len(taken) < 2 or taken[0] == 0 or taken[1] == 0:
         tool_failure(f"vacuity: an action of EditsGen was never taken: {taken}")
@@ -281,11 +379,43 @@ def run(tier):
         tool_failure(f"vacuity: no generated document has {missing}")
     # 2. the real server on every document of the space
     failed = assess(cases, "space", stats)
-    # 3. after edit histories
+    # 3. after edit histories: every history of EditsHistGen.tla, and random longer ones
     rng = random.Random(SEED)
+    hcfg = "EditsHistGenQuick.cfg" if tier == "quick" else "EditsHistGenThorough.cfg"
+    hcov = tlc("EditsHistGenMC", "EditsHistGenCov.cfg", workers=2, timeout=600, coverage=True, tag="c16histcov")
+    tlc_must_pass(hcov, "EditsHistGen (coverage run)")
+    htaken = [int(m.group(1)) for m in re.finditer(r"^<Next line .*?>: (\d+):\d+", hcov.out, re.M)]
+    if not htaken or 0 in htaken[:1]:
+        tool_failure(f"vacuity: an action of EditsHistGen was never taken: {htaken}")
+    hgen = tlc("EditsHistGenMC", hcfg, workers=8, timeout=2400, xmx="8g", tag="c16hist")
+    tlc_must_pass(hgen, "EditsHistGen: theorems of EditsHist.tla over the workspace histories")
+    ws_hists = behaviours_from(hgen, "HIST")
+    log(f"[c16] EditsHistGen {hcfg}: {hgen.distinct} states, {len(ws_hists)} workspace histories, {hgen.wall:.1f}s")
+    hfeat = {"remove_of_a_live_exporter": 0, "rename_of_a_live_exporter": 0, "exporter_stops_exporting": 0,
+             "module_starts_exporting": 0, "rename_onto_an_existing_module": 0, "ends_without_live_exporter": 0,
+             "ends_with_two_live_exporters": 0, "exporter_broken": 0}
+    for h in ws_hists:
+        ws = {m: (k, "") for m, k in h["hinit"].items() if k != "absent"}
+        for o in h["hops"]:
+            was = ws.get(o["m"], ("absent", ""))[0]
+            hfeat["remove_of_a_live_exporter"] += o["op"] == "remove" and was == "foo"
+            hfeat["rename_of_a_live_exporter"] += o["op"] == "rename" and was == "foo"
+            hfeat["rename_onto_an_existing_module"] += o["op"] == "rename" and o["to"] in ws
+            hfeat["exporter_stops_exporting"] += o["op"] == "update" and was == "foo" and o["kind"] == "nofoo"
+            hfeat["exporter_broken"] += o["op"] == "update" and was == "foo" and o["kind"] == "broken"
+            hfeat["module_starts_exporting"] += o["op"] == "update" and was != "foo" and o["kind"] == "foo"
+            ws = apply_hop(ws, o)
+        hfeat["ends_without_live_exporter"] += len(h["exporters"]) == 0
+        hfeat["ends_with_two_live_exporters"] += len(h["exporters"]) >= 2
+    hmissing = [k for k, v in hfeat.items() if v == 0]
+    if hmissing:
+        tool_failure(f"vacuity: no enumerated workspace history has {hmissing}")
+    ws_cases = enumerated_histories(cases, ws_hists, rng)
+    failed_w = assess(ws_cases, "wshist", stats)
     hist_cases = histories(cases, 400 if tier == "quick" else 6000, rng)
     failed_h = assess(hist_cases, "hist", stats)
-    groups = report(failed, "document space") + report(failed_h, "after an edit history")
+    groups = report(failed, "document space") + report(failed_w, "after a workspace history (EditsHistGen)") + \
+        report(failed_h, "after an edit history")
     # 4. open findings: the witness is re-run, the region is otherwise avoided
     check_witnesses(kfs, stats)
     if stats.get("judged", 0) == 0:
@@ -300,7 +430,12 @@ def run(tier):
         "model_config": cfg,
         "theorems_checked_on_every_document": ["ReadsBack", "NewlineFixGood", "GlueFixGoodIffSeparated", "GlueOkNeedsSemicolon", "ApplySane"],
         "documents_in_space": n_space, "documents_avoided_known_finding": len(avoided),
-        "documents_replayed": len(cases), "edit_histories": len(hist_cases),
+        "documents_replayed": len(cases), "edit_histories": len(hist_cases) + len(ws_cases),
+        "workspace_histories_enumerated_by_EditsHistGen": len(ws_cases), "workspace_history_model_config": hcfg,
+        "workspace_history_states": hgen.distinct, "workspace_history_features": hfeat,
+        "random_edit_histories": len(hist_cases),
+        "random_histories_with_remove_or_rename": sum(1 for c in hist_cases if any(o["op"] != "update" for o in c["hops"])),
+        "cases_with_proposals_but_no_live_exporter": stats.get("cases_with_proposals_but_no_live_exporter", 0),
         "server_updates_in_histories": stats.get("updates", 0),
         "proposals_judged": stats["judged"], "quick_fixes": stats.get("kind_action", 0),
         "completion_edits": stats.get("kind_completion", 0),
@@ -312,7 +447,7 @@ def run(tier):
         "requests_answered_without_edits_for_a_class_already_named_in_an_import": stats.get("skipped_nothing-proposed", 0),
         "requests_that_panicked": stats.get("skipped_panic", 0),
         "trace_states_checked_by_tlc": stats.get("tlc_generated", 0),
-        "records_failing": len(failed) + len(failed_h), "violation_groups": groups,
+        "records_failing": len(failed) + len(failed_w) + len(failed_h), "violation_groups": groups,
         "model_drift_records": drift_total, "model_drift_by_check": stats["drift"],
         "known_findings_open": len(kfs), "known_findings_reproduced": stats.get("known_findings_reproduced", 0),
         "exhaustive": False,
@@ -320,7 +455,9 @@ def run(tier):
     write_evidence(PID, tier, "model_checking", coverage,
                    ["the class used but not resolved is `Foo`; the workspace has modules A, B, C, W, Lib.Util, Lib.Deep.Core (and E, Lib.Exp) of fixed texts",
                     "documents are ASCII; positions are (zero-based line, zero-based byte column)",
-                    "a fresh ServerState on the edited text is 'the document after applying the edits' as the property means it",
+                    "a fresh ServerState on the edited text and the LIVE workspace (EditsHist!Replay of the history: removed / renamed-away modules are gone) "
+                    "is 'the document after applying the edits' as the property means it; the running server's own diagnostics are never the verdict",
+                    "workspace histories operate on the candidate exporters A, E and the free name Z (update to exporting / not exporting / broken, remove, rename)",
                     "toplevels are compared through the printer (pretty_print_toplevel) after blanking out comments: the same program does not speak of comments; proposals that only move a comment to another node are counted",
                     "TLC 1.8.0 and the CommunityModules Json/IOUtils/SequencesExt overrides are correct"],
                    time.time() - t0, groups)
